@@ -254,6 +254,14 @@ class QuiltWorld(WorldBase):
             return sf.Frame.from_items(zip(spec['columns'], cols), index=sf.Index(spec['index']), name=spec['name'], columns_constructor=sf.IndexDate)
         return sf.Frame.from_items(zip(spec['columns'], cols), index=sf.Index(spec['index']), name=spec['name'])
 
+    def _ref_frame(self):
+        '''The single Frame the statement compares a Quilt with: the members concatenated along the axis (labels retained as the outer level or not).'''
+        sf = self.sf
+        frames = [self._frame(s) for s in self.members]
+        if self.retain:
+            return sf.Frame.from_concat_items([(f.name, f) for f in frames], axis=self.axis)
+        return sf.Frame.from_concat(frames, axis=self.axis)
+
     def _put(self, tag, ns):
         with open(self.path, 'wb') as fh:
             fh.write(self.contents[tag])
@@ -341,6 +349,10 @@ class QuiltWorld(WorldBase):
             op['size'] = ch.randint(1, 3)
             op['kind'] = ch.choice(['frame', 'array'])
             op['items'] = ch.chance(0.5)
+            if ch.chance(0.35):
+                # the other window options: which windows exist and how they are labelled depends on them
+                op['opts'] = {'label_shift': ch.choice([0, 1, -1, -3]), 'step': ch.choice([1, 2]), 'start_shift': ch.choice([0, 1, -1]),
+                              'window_sized': ch.chance(0.7)}
         elif what == 'q_headtail':
             op['which'] = ch.choice(['head', 'tail'])
             op['k'] = ch.randint(1, 4)
@@ -391,6 +403,22 @@ class QuiltWorld(WorldBase):
                 site, self._icls = 'Quilt.selection', 'negative-step-slice-on-quilt-axis'
             elif k and 's' in k and len(k['s']) >= 2 and k['s'][0] == k['s'][1]:
                 site, self._icls = 'Quilt.selection', 'empty-selection-on-quilt-axis'
+        if op['op'] == 'q_window' and op.get('opts'):
+            # the window loop may visit positions before the first or after the last label (always once, and with a negative
+            # start_shift repeatedly); such a window is a key selecting nothing along the Quilt axis (known finding).
+            # Exactly those cases are attributed to it.
+            o = op['opts']
+            n_ax = self.ref.shape[0] if self.axis == 0 else self.ref.shape[1]
+            ss = o.get('start_shift', 0)
+            left, step_, size_ = ss, max(1, o.get('step', 1)), op.get('size', 1)
+            left_max = (n_ax if ss >= 0 else n_ax + abs(ss)) - 1
+            while True:
+                if left >= n_ax or left + size_ - 1 < 0:
+                    site, self._icls = 'Quilt.selection', 'empty-selection-on-quilt-axis'
+                    break
+                left += step_
+                if left > left_max:
+                    break
         st, r = call(thunk)
         out = self._judge(site, op, exp, st, r, bus is self.bus)
         if cold:
@@ -723,11 +751,13 @@ class QuiltWorld(WorldBase):
         site = f'Quilt.iter_window{"_array" if kind == "array" else ""}{"_items" if items else ""}'
         sf = self.sf
 
-        def thunk():
+        opts = op.get('opts') or {}
+
+        def windows_of(c):
             if kind == 'array':
-                node = (q.iter_window_array_items if items else q.iter_window_array)(size=size, axis=ax)
+                node = (c.iter_window_array_items if items else c.iter_window_array)(size=size, axis=ax, **opts)
             else:
-                node = (q.iter_window_items if items else q.iter_window)(size=size, axis=ax)
+                node = (c.iter_window_items if items else c.iter_window)(size=size, axis=ax, **opts)
             out = []
             for x in node:
                 k, v = x if items else (None, x)
@@ -735,6 +765,17 @@ class QuiltWorld(WorldBase):
                 o.pop('kinds', None)
                 out.append((nlab(tuple(k) if isinstance(k, (tuple, np.ndarray, list)) else k), o) if items else o)
             return out
+
+        def thunk():
+            return windows_of(q)
+        if opts:
+            # with non-default options the expectation is the statement's own reference: the same call on the single Frame
+            # made by concatenating the members (window arithmetic of a Frame is not the Quilt's business)
+            st_ref, exp_ref = call(lambda: windows_of(self._ref_frame()))
+            if st_ref == 'raise' or not exp_ref:
+                return site, None, None  # the Frame refuses these options, or no window exists (empty selections: known finding)
+            self.probe('window-options-checked-against-the-concatenated-frame')
+            return site + '(options)', {'t': 'element', 'v': norm(exp_ref)}, thunk
         exp = []
         for end in range(size - 1, n):
             pos = list(range(end - size + 1, end + 1))
